@@ -1328,6 +1328,10 @@ void knobs_for(const std::string &prop, Knobs &K, Rng &r)
                 K.p_disable = 0.2;
                 K.p_only_test = 0.2;
                 K.p_badcode = 0.3;
+        } else if (prop == "C20") {
+                K.p_events = 0.0; // complete byte streams of the sequence and of the isolated lines are compared
+                K.p_trig_act = 0.0;
+                K.max_cmds = 8;
         } else if (prop == "C16") {
                 K.p_mutex = 1.0;
                 K.p_long_run = 0.0;
